@@ -841,14 +841,21 @@ func (w *World) doByz() {
 	before := w.observe(dst)
 	lenBefore := dst.Len()
 	clockBefore := dst.Clock.GetTime()
-	_, err := dst.Join(evil, -1)
-	r.Logf("byz n%d->n%d batch=%d candidates=%d bad=%v err=%v", s.Idx, rcv.Idx, batch, len(cand), badNames, err != nil)
+	// a batch that must be refused must be refused whatever size bound the receiver merges with (the bound says
+	// how much is kept, not how much is checked)
+	size := -1
+	if sz := r.Choose("byz-size", 2*(len(cand)+2)); anyBad && sz <= len(cand)+1 {
+		size = sz
+		r.Probe("invalid-batch-offered-to-bounded-merge")
+	}
+	_, err := dst.Join(evil, size)
+	r.Logf("byz n%d->n%d batch=%d candidates=%d bad=%v size=%d err=%v", s.Idx, rcv.Idx, batch, len(cand), badNames, size, err != nil)
 	if len(cand) > 8 && anyBad {
 		r.Probe("bad-entry-in-batch-over-8")
 	}
 	if anyBad {
 		if err == nil {
-			r.Violate(w.P.Prop+":admitted-invalid", "merge admitted a batch of %d entries containing invalid entries %v", len(cand), badNames)
+			r.Violate(w.P.Prop+":admitted-invalid", "merge (size bound %d) admitted a batch of %d entries containing invalid entries %v", size, len(cand), badNames)
 		}
 		_, strict := w.M.Linear(rcv.Set, w.ByHash)
 		if d := w.sameObs(before, w.observe(dst), strict); d != "" || dst.Len() != lenBefore {
@@ -917,7 +924,6 @@ func (w *World) doPolicy() {
 	o.AccessController = p
 	dst := w.newLog(rcv.W, o)
 	before := w.observe(dst)
-	_, err := dst.Join(src, -1)
 	expectDeny := false
 	switch kind {
 	case 1, 2:
@@ -929,7 +935,12 @@ func (w *World) doPolicy() {
 	case 3:
 		expectDeny = nth <= len(cand)
 	}
-	r.Logf("policy-merge n%d->clone(n%d) kind=%d candidates=%d expectDeny=%v err=%v", s.Idx, rcv.Idx, kind, len(cand), expectDeny, err != nil)
+	size := -1
+	if sz := r.Choose("pol-size", 2*(len(cand)+2)); expectDeny && sz <= len(cand)+1 && kind != 3 {
+		size = sz // (a counting policy denies the n-th entry it is asked about: every candidate must be asked about)
+	}
+	_, err := dst.Join(src, size)
+	r.Logf("policy-merge n%d->clone(n%d) kind=%d candidates=%d size=%d expectDeny=%v err=%v", s.Idx, rcv.Idx, kind, len(cand), size, expectDeny, err != nil)
 	if expectDeny {
 		r.Fault("policy-deny")
 		if err == nil {
@@ -1069,8 +1080,18 @@ func (w *World) mergeTampered(n *Node, h string, tr tamperResult) {
 			}
 		}
 	}
-	how := r.Choose("tampered-into", 3)
-	if succ != "" && how != 0 {
+	how := r.Choose("tampered-into", 4)
+	held := false
+	honest, _ := n.Log.Get(w.Cids[h])
+	fpHonest := fingerprint(honest)
+	if how == 3 {
+		// the receiver holds the genuine entry already (a log built from the replica's entries and heads): what it
+		// hands out under that identifier afterwards must still be the genuine entry, also as a head
+		ro.Entries = n.Log.GetEntries()
+		ro.Heads = n.Log.Heads().Slice()
+		held = true
+		r.Probe("tampered-copy-offered-to-holder-of-the-genuine-entry")
+	} else if succ != "" && how != 0 {
 		se, _ := n.Log.Get(w.Cids[succ])
 		om := entry.NewOrderedMap()
 		om.Set(succ, se)
@@ -1081,15 +1102,38 @@ func (w *World) mergeTampered(n *Node, h string, tr tamperResult) {
 	recv := w.newLog(n.W, ro)
 	co := w.logOpts()
 	om := entry.NewOrderedMap()
-	om.Set(h, tr.e)
+	size := -1
+	if r.Choose("tampered-carrier", 2) == 0 {
+		om.Set(h, tr.e)
+		co.Heads = []iface.IPFSLogEntry{tr.e}
+	} else {
+		// the whole log of the replica with that one entry exchanged, merged with or without a size bound
+		for _, e := range liveSlice(n.Log.GetEntries()) {
+			if k := e.GetHash().String(); k == h {
+				om.Set(k, tr.e)
+			} else {
+				om.Set(k, e)
+			}
+		}
+		for _, e := range n.Log.Heads().Slice() {
+			if e.GetHash().String() == h {
+				co.Heads = append(co.Heads, tr.e)
+			} else {
+				co.Heads = append(co.Heads, e)
+			}
+		}
+		if sz := r.Choose("tampered-size", 2*om.Len()+2); sz <= om.Len() {
+			size = sz
+		}
+		r.Probe("tampered-entry-inside-a-whole-log")
+	}
 	co.Entries = om
-	co.Heads = []iface.IPFSLogEntry{tr.e}
 	var carrier *ipfslog.IPFSLog
 	var cerr, jerr error
 	out := Protect(func() {
 		carrier, cerr = ipfslog.NewLog(w.St, n.W.ID, co)
 		if cerr == nil {
-			_, jerr = recv.Join(carrier, -1)
+			_, jerr = recv.Join(carrier, size)
 		}
 	})
 	if out.Status == "violation" {
@@ -1097,8 +1141,27 @@ func (w *World) mergeTampered(n *Node, h string, tr tamperResult) {
 	} else if out.Status != "ok" {
 		r.Harness("%s", out.Msg)
 	}
+	handsOut := func(where string, e iface.IPFSLogEntry) {
+		if e != nil && e.GetHash().String() == h && fingerprint(e) != fpHonest {
+			r.Violate("C07:merge-"+tamperNames[tr.kind], "after a merge (size bound %d, err=%v) with a log offering a copy of %s with %s, %s hands out that copy in place of the genuine entry: %s instead of %s", size, jerr, w.M.Name(h), tr.detail, where, fingerprint(e), fpHonest)
+		}
+	}
+	if held {
+		got, _ := recv.Get(w.Cids[h])
+		handsOut("Get", got)
+		for _, e := range recv.Heads().Slice() {
+			handsOut("Heads", e)
+		}
+		for _, e := range recv.Values().Slice() {
+			handsOut("Values", e)
+		}
+		for _, e := range liveSlice(recv.GetEntries()) {
+			handsOut("GetEntries", e)
+		}
+		return
+	}
 	if got, ok := recv.Get(w.Cids[h]); ok && got != nil {
-		r.Violate("C07:merge-"+tamperNames[tr.kind], "a merge (err=%v) took over the copy of %s with %s although its signature does not verify (receiver held its successor: %v)", jerr, w.M.Name(h), tr.detail, ro.Entries != nil)
+		r.Violate("C07:merge-"+tamperNames[tr.kind], "a merge (size bound %d, err=%v) took over the copy of %s with %s although its signature does not verify (receiver held its successor: %v)", size, jerr, w.M.Name(h), tr.detail, ro.Entries != nil)
 	}
 }
 
